@@ -3,9 +3,11 @@ package props
 import (
 	"context"
 	"fmt"
+	"github.com/ericlagergren/decimal"
 	"math/rand"
 	"runtime"
 	"sort"
+	"strconv"
 	"strings"
 	"sync"
 	"sync/atomic"
@@ -46,7 +48,7 @@ var c09 = core.Register(&core.Prop{
 	CaseTimeoutSec:   func(tier string) int { return pickTier(tier, 240, 900) },
 	Floors: func(c map[string]int64, tier string) []string {
 		var out []string
-		for _, k := range []string{"goroutine_evaluations", "overlapping_evaluations_observed", "field_analyses", "own_parses", "own_error_parses", "race_log_files_scanned", "configs_completed"} {
+		for _, k := range []string{"goroutine_evaluations", "overlapping_evaluations_observed", "field_analyses", "own_parses", "own_error_parses", "race_log_files_scanned", "configs_completed", "runners_without_data_map"} {
 			if c[k] == 0 && k != "race_log_files_scanned" {
 				out = append(out, "coverage floor: no "+k)
 			}
@@ -76,6 +78,26 @@ func c09Configs(tier string, seed int64) []RaceCfg {
 		}
 	}
 	return out
+}
+
+// plainNums renders numbers and arrays of numbers in plain digits.
+func plainNums(v interface{}) string {
+	switch x := v.(type) {
+	case float64:
+		return strconv.FormatFloat(x, 'f', -1, 64)
+	case *decimal.Big:
+		if x == nil {
+			return "nil"
+		}
+		return fmt.Sprintf("%f", x)
+	case []interface{}:
+		var p []string
+		for _, e := range x {
+			p = append(p, plainNums(e))
+		}
+		return "[" + strings.Join(p, " ") + "]"
+	}
+	return fmt.Sprint(v)
 }
 
 func shallowCopy(m map[string]interface{}) map[string]interface{} {
@@ -163,7 +185,7 @@ var c09Share = core.Mon(c09, "concurrent-share", func(w *core.W, c *RaceCfg) {
 			}
 		})
 	}
-	var overlaps, evals, analyses, parses, errParses int64
+	var overlaps, evals, analyses, parses, errParses, nilMapRuns int64
 	type mismatch struct {
 		g, tree   int
 		what      string
@@ -228,6 +250,33 @@ var c09Share = core.Mon(c09, "concurrent-share", func(w *core.W, c *RaceCfg) {
 					} else if o := evalOutcome(sc, datas[g]); !strings.HasPrefix(o, "VALUE") {
 						report(mismatch{g, -1, "own evaluation", "a value", o})
 					}
+				case 4:
+					// runners without a data map of their own (never set, set to nil, created by SetThisValue): their locals
+					// are theirs alone, whatever other goroutines' runners assign at the same time
+					nr := formula.NewRunner()
+					switch it % 3 {
+					case 1:
+						nr.SetThis(nil)
+					case 2:
+						nr.SetThis(nil)
+						nr.SetThisValue("$seed", g)
+					}
+					x := g*1000003 + it
+					atomic.AddInt64(&nilMapRuns, 1)
+					for step, f := range []string{fmt.Sprintf("$a = %d, $b = $a + 1", x), "[$a, $b, $a = $a + 1, $a]", "[$a, $b]"} {
+						fsc, ferr := hostParse([]byte(f), true)
+						if ferr != nil {
+							continue
+						}
+						var v interface{}
+						var e error
+						p, pv := core.Call(func() { v, e = nr.Resolve(context.Background(), fsc.Expression) })
+						want := []string{fmt.Sprint(x + 1), fmt.Sprintf("[%d %d %d %d]", x, x+1, x+1, x+1), fmt.Sprintf("[%d %d]", x+1, x+1)}[step]
+						if got := plainNums(v); p || e != nil || got != want {
+							report(mismatch{g, -1, "locals of a runner without a data map", want, fmt.Sprint(got, e, pv)})
+							break
+						}
+					}
 				case 3:
 					// a text of its own, invalid: diagnostics are formatted on its own source object
 					bad := fmt.Sprintf("f(%d,\n\n  %d +* )\r\n'open", g, it)
@@ -275,6 +324,7 @@ var c09Share = core.Mon(c09, "concurrent-share", func(w *core.W, c *RaceCfg) {
 	w.CountN("field_analyses", analyses)
 	w.CountN("own_parses", parses)
 	w.CountN("own_error_parses", errParses)
+	w.CountN("runners_without_data_map", nilMapRuns)
 	w.CountN("yields_injected", int64(yields))
 	w.CountN("shared_trees", int64(len(trees)))
 	w.Count("configs_completed")
